@@ -93,11 +93,18 @@ def identifier_differentials(orig_xml, level, rng=None, thin=False):
                         out.append(("id-look-alike:%s:%s:%s:own-signature-%s:%s" % (target, sname, order, sigkind, where),
                                     ET.tostring(f, encoding="unicode")))
     if thin and rng is not None:
-        # every spelling x order stays; the signature kind / position pair is drawn
+        # every target x spelling x order stays; the signature kind / position pair is drawn (thin == "partly": the
+        # own-namespace and xml:id spellings keep all four pairs)
         groups = {}
         for n, x in out:
             groups.setdefault(tuple(n.split(":")[:4]), []).append((n, x))
-        out = [rng.choice(g) for _, g in sorted(groups.items())]
+        res = []
+        for k, g in sorted(groups.items()):
+            if thin == "partly" and k[2] in ("own-namespace-ID", "xml-id"):
+                res += g
+            else:
+                res.append(rng.choice(g))
+        out = res
     return out
 
 
